@@ -101,3 +101,28 @@ def unmerged_fork_tail_duplicated(d, jobs, ctx):
 def loop_body_ends_in_fork(d):
     """some loop's body ends with an AND/OR fork"""
     return any(n[0] == "loop" and n[1][1] and n[1][1][-1][0] in ("and", "or") for n in _walk(d))
+
+
+def _tails(seq):
+    """items in tail position of a sequence: its last item and, through XOR/AND/OR, the tails of the branches"""
+    if not seq[1]:
+        return []
+    last = seq[1][-1]
+    if last[0] in ("xor", "and", "or"):
+        out = []
+        for b in last[1]:
+            out.extend(_tails(b))
+        return out
+    return [last]
+
+
+@predicate
+def loop_with_break_ends_enclosing_loop_body(d):
+    """some loop's body ends (in tail position) with another loop that has a break, or with a loop whose own body ends
+    that way"""
+    def ends_with_breaking_loop(body):
+        for it in _tails(body):
+            if it[0] == "loop" and (_has_break(it) or ends_with_breaking_loop(it[1])):
+                return True
+        return False
+    return any(n[0] == "loop" and ends_with_breaking_loop(n[1]) for n in _walk(d))
